@@ -623,6 +623,9 @@ def run_check(prop_id, build, evaluate, rule, rebuild_record=None):
         recs = build(chk)
     chk.coq_props()
     try:
+        (ret, out) = chk.coq_make(['Model/TcpclSess.vo'])
+        if ret != 0:
+            raise RuntimeError('model does not build: ' + chk._first_error(out))
         diffs = correspondence(chk, recs)
         detail = '; '.join('%s %s %r' % (rec.kind, e, diff) for (rec, e, diff) in diffs[:3])
     except Exception as err:  # model evaluation itself failed
